@@ -1,0 +1,25 @@
+//go:build verif
+
+// Contracts for package ziptree, checked by /verif (govc). Comment-only.
+// The tree's abstract value is the ghost field `view`: key content -> node.
+package ziptree
+
+//@ type ZipTree
+//@   ghostfield view map[string]*Node
+
+//@ func ZipTree.Get
+//@   property C07 C19
+//@   trusted
+//@   modifies nothing
+//@   ensures result1 == has(t.view, string(key))
+//@   ensures result1 ==> result0 != nil && result0 == t.view[string(key)] && string(result0.Key) == string(key)
+//@   ensures !result1 ==> result0 == nil
+
+//@ func ZipTree.Put
+//@   property C07 C19
+//@   trusted
+//@   requires node != nil
+//@   modifies t.view, t.root, Node.left, Node.right, Node.rank
+//@   ensures has(t.view, string(node.Key)) && t.view[string(node.Key)] == node
+//@   ensures forall(func(k string) bool { return k != string(node.Key) ==> has(t.view, k) == has(old(t.view), k) && t.view[k] == old(t.view)[k] })
+//@   ensures result == ite(has(old(t.view), string(node.Key)), old(t.view)[string(node.Key)], nil)
